@@ -90,3 +90,66 @@ let run_pipeline_eol (parts : string list) : string =
 
 let () = register "pipeline" run_pipeline
 let () = register "pipeline_eol" run_pipeline_eol
+
+(* ---------- kind: pipeline_shared (C05, exchanges sharing one payload slice; Net/PipelineBuf.v) ---------- *)
+(* sorted multiset of ids, maximal runs of consecutive distinct values as a-b (same as c05Runs in c05c.go) *)
+let c05_runs (ids : int list) : string =
+  match List.sort compare ids with
+  | [] -> "-"
+  | x :: rest ->
+      let out = ref [] in
+      let flush a b = out := (if a = b then string_of_int a else Printf.sprintf "%d-%d" a b) :: !out in
+      let (a, b) = List.fold_left (fun (a, b) y -> if y = b + 1 then (a, y) else (flush a b; (y, y))) (x, x) rest in
+      flush a b;
+      String.concat "," (List.rev !out)
+
+let rec c05_drop k l = if k <= 0 then l else match l with [] -> [] | _ :: r -> c05_drop (k - 1) r
+
+let run_pipeline_shared (parts : string list) : string =
+  let f = fields parts in
+  let tcp = (fld f "net" = "tcp") in
+  let q0 = ifld f "q0" in
+  let warm = ifld f "warm" in
+  let bufs = List.map bytes_of_hex (String.split_on_char ',' (fld f "bufs")) in
+  let ex = List.map int_of_string (String.split_on_char ',' (fld f "ex")) in
+  let heap = List.mapi (fun i b -> (n_of_int i, b)) bufs in
+  let s = plb_shared_run tcp (n_of_int q0) heap (nat_of_int warm) (List.map n_of_int ex) in
+  let (((outs, _closed), wire), heap') = plb_observe s in
+  let total = List.length outs in
+  let ok = List.length (List.filter (fun (o, _) -> match o with PlOMsg (_, true) -> true | _ -> false) outs) in
+  let bad = List.length (List.filter (fun (o, _) -> match o with PlOMsg (_, false) -> true | _ -> false) outs) in
+  let err = total - ok - bad in
+  (* what a server reads: de-frame on tcp (2-octet length), transaction id = first two octets, the rest = tail *)
+  let tails = List.map (fun b -> c05_drop 2 (List.map int_of_n b)) bufs in
+  let per = Array.make (List.length bufs) 0 in
+  let other = ref 0 in
+  let ids = ref [] in
+  List.iter (fun (_, w) ->
+    let w = List.map int_of_n w in
+    let msg =
+      if not tcp then Some w
+      else match w with
+        | h :: l :: r when h * 256 + l = List.length r -> Some r
+        | _ -> None in
+    match msg with
+    | Some (a :: b :: tl) ->
+        ids := (a * 256 + b) :: !ids;
+        let rec find i = function
+          | [] -> incr other
+          | t :: r -> if t = tl then per.(i) <- per.(i) + 1 else find (i + 1) r in
+        find 0 tails
+    | _ -> incr other) wire;
+  let pay = List.map (fun (i, b) ->
+    match List.assoc_opt i heap' with Some b' when b' = b -> "1" | _ -> "0") heap in
+  let want = List.init total (fun i -> q0 + i) in
+  let spec =
+    if ok <> total then "FAIL:an-exchange-got-no-reply-or-a-foreign-id"
+    else if List.sort compare !ids <> want then "FAIL:wire-ids-are-not-the-assigned-ones"
+    else if !other <> 0 then "FAIL:wire-octets-are-not-id++tail"
+    else if List.mem "0" pay then "FAIL:payload-modified"
+    else "ok" in
+  Printf.sprintf "n=%d ok=%d bad=%d err=%d ids=%s per=%s other=%d pay=%s conns=1 viol=none || spec=%s"
+    total ok bad err (c05_runs !ids)
+    (String.concat "," (List.map string_of_int (Array.to_list per))) !other (String.concat "," pay) spec
+
+let () = register "pipeline_shared" run_pipeline_shared
